@@ -95,6 +95,38 @@ func runC17(o *Out) {
 			}
 		}
 	}
+	// streams in which a later record starts exactly at, just before or just after
+	// a multiple of the reader's block size (4096 bytes)
+	for _, target := range []int{4096, 8192, 12288} {
+		for _, delta := range []int{-1, 0, 1} {
+			n := -1
+			for cand := 0; cand < target; cand++ {
+				if 4+cand+(cand+69)/70 == target+delta { // ">r1\n" + residues + line ends
+					n = cand
+					break
+				}
+			}
+			if n < 0 {
+				continue
+			}
+			var b bytes.Buffer
+			first := residues(alpha, n, target+delta)
+			seqio.Fasta{Desc: "r1", Data: first}.WriteTo(&b)
+			if b.Len() != target+delta {
+				continue
+			}
+			second := residues(alpha, 100, delta+1)
+			seqio.Fasta{Desc: "r2 second", Data: second}.WriteTo(&b)
+			seqio.Fasta{Desc: "r3", Data: second[:7]}.WriteTo(&b)
+			want := join("ok", fmt.Sprintf("((%s %s) (%s %s) (%s %s))", hx([]byte("r1")), hx(first), hx([]byte("r2 second")), hx(second), hx([]byte("r3")), hx(second[:7])), "1")
+			got := o.Run("scan-block-boundary", true, "fasta_scan", hx(b.Bytes()))
+			if got != want {
+				o.Violate("stream-block-boundary", fmt.Sprintf("fasta_scan <%d-byte stream, second record at offset %d>", b.Len(), target+delta),
+					fmt.Sprintf("3 records expected, got %s", got[:minInt(len(got), 120)]))
+			}
+		}
+	}
+	runGbToFastaBuilt(o)
 	// malformed / arbitrary streams: correspondence only
 	for k := 0; k < 400; k++ {
 		n := o.Rng.Intn(60)
@@ -118,6 +150,20 @@ func runC17(o *Out) {
 			if n > 100 {
 				checkGbToFasta(o, name+":slice", gts.Slice(seq, 10, 95))
 			}
+		}
+	}
+}
+
+// records built through the API whose DEFINITION runs over several lines, with
+// and without a VERSION, whole and sliced
+func runGbToFastaBuilt(o *Out) {
+	for i, def := range []string{"one line", "first line\nsecond line", "three\nlines of\ndefinition", ""} {
+		for _, ver := range []string{"V0001.1", ""} {
+			fields := seqio.GenBankFields{LocusName: "BUILT", Molecule: gts.DNA, Topology: gts.Linear, Division: "SYN",
+				Date: seqio.Date{Year: 2020, Month: 1, Day: 2}, Definition: def, Accession: "V0001", Version: ver}
+			seq := gts.New(fields, nil, residues("acgtacgtnnry", 150+i, i))
+			checkGbToFasta(o, fmt.Sprintf("built:%d:%q", i, ver), seq)
+			checkGbToFasta(o, fmt.Sprintf("built-slice:%d:%q", i, ver), gts.Slice(seq, 5, 120))
 		}
 	}
 }
